@@ -85,6 +85,13 @@ func (c *FnCtx) resolveCallee(cc *ssa.CallCommon) *calleeInfo {
 		}
 	} else {
 		ci.name = "dynamic:" + cc.Value.Name()
+		// a call through a value of a named function type of another package (context.CancelFunc ...):
+		// addressed in the specs by the type's name
+		if n, ok := cc.Value.Type().(*types.Named); ok && n.Obj().Pkg() != nil && n.Obj().Pkg() != c.g.tpkg {
+			ci.name = n.Obj().Pkg().Name() + "." + n.Obj().Name()
+			ci.external = true
+			ci.pkgName = n.Obj().Pkg().Name()
+		}
 		// a call through a package-level func variable declared effect-free ("purevar")
 		if u, ok := cc.Value.(*ssa.UnOp); ok && u.Op == token.MUL {
 			if gl, ok := u.X.(*ssa.Global); ok && c.g.specs.PureVars[gl.Name()] {
@@ -596,6 +603,40 @@ func (c *FnCtx) call(ins ssa.Instruction, cc *ssa.CallCommon, val ssa.Value) {
 	}
 	for i, rt := range rtypes {
 		c.assume(c.tyInv(results[i], rt))
+	}
+	if c.spec != nil && len(c.spec.Sets) > 0 {
+		// ghost assignments attached to this call ("after <callee> set g = e"): evaluated in the state
+		// right after the call, with the callee's arguments and results in scope
+		siteNo := len(c.callRes[ci.name])
+		gs := append([]*GhostSet{}, c.spec.Sets[ci.name]...)
+		gs = append(gs, c.spec.Sets[fmt.Sprintf("%s#%d", ci.name, siteNo)]...)
+		for _, g := range gs {
+			comp, _, ok := c.localGhost(g.Name)
+			if !ok {
+				panic(unsupported("after ... set: unknown ghostvar " + g.Name))
+			}
+			env := c.fnEnv(c.st, c.entry, false)
+			if blk := ins.Block(); blk != nil {
+				at := len(blk.Instrs)
+				for i, x := range blk.Instrs {
+					if x == ins {
+						at = i
+					}
+				}
+				env.lookup = c.localLookup(blk, at, nil)
+			}
+			ce := c.calleeEnv(ci, args, results, c.st, c.entry)
+			for n, tv := range ce.vars {
+				_, clash := env.vars[n]
+				if !clash || n == "recv" || (len(n) >= 2 && (n[0] == 'p' || n[0] == 'r') && n[1] >= '0' && n[1] <= '9') {
+					env.vars[n] = tv
+				}
+			}
+			v, _ := c.tr(g.E.E, env)
+			n := c.freshComp(comp)
+			c.assume(eq(n, v))
+			c.set(comp, n)
+		}
 	}
 	if cl, ok := ins.(*ssa.Call); ok && len(results) == 1 {
 		if T, ok := c.g.privateObject(cl); ok {
